@@ -18,4 +18,53 @@ pub(crate) mod verif_models {
         }
         unsafe { std::mem::transmute(r) }
     }
+
+    /// PMAXUB ymm
+    pub fn mm256_max_epu8(a: __m256i, b: __m256i) -> __m256i {
+        let x: [u8; 32] = unsafe { std::mem::transmute(a) };
+        let y: [u8; 32] = unsafe { std::mem::transmute(b) };
+        let mut r = [0u8; 32];
+        let mut i = 0;
+        while i < 32 {
+            r[i] = if x[i] > y[i] { x[i] } else { y[i] };
+            i += 1;
+        }
+        unsafe { std::mem::transmute(r) }
+    }
+
+    /// VPSHUFB ymm: per 128-bit lane; index bit 7 set => 0, else src[lane_base + (idx & 15)]
+    pub fn mm256_shuffle_epi8(a: __m256i, b: __m256i) -> __m256i {
+        let x: [u8; 32] = unsafe { std::mem::transmute(a) };
+        let y: [u8; 32] = unsafe { std::mem::transmute(b) };
+        let mut r = [0u8; 32];
+        let mut i = 0;
+        while i < 32 {
+            let base = i & 16;
+            r[i] = if y[i] & 0x80 != 0 { 0 } else { x[base + (y[i] & 15) as usize] };
+            i += 1;
+        }
+        unsafe { std::mem::transmute(r) }
+    }
+
+    /// PCLMULQDQ: carry-less multiply of the selected 64-bit halves (imm8 bit0 -> a, bit4 -> b)
+    pub fn mm_clmulepi64_si128<const IMM8: i32>(a: __m128i, b: __m128i) -> __m128i {
+        let imm8 = IMM8;
+        let x: [u64; 2] = unsafe { std::mem::transmute(a) };
+        let y: [u64; 2] = unsafe { std::mem::transmute(b) };
+        let p = x[(imm8 & 1) as usize];
+        let q = y[((imm8 >> 4) & 1) as usize];
+        let mut lo = 0u64;
+        let mut hi = 0u64;
+        let mut i = 0;
+        while i < 64 {
+            if (q >> i) & 1 == 1 {
+                lo ^= p << i;
+                if i > 0 {
+                    hi ^= p >> (64 - i);
+                }
+            }
+            i += 1;
+        }
+        unsafe { std::mem::transmute([lo, hi]) }
+    }
 }
